@@ -92,7 +92,7 @@ def run(ck: Check) -> None:
     rng = ck.rng
     ck.correspondences.add("corr:api-histories/verdict-per-call")
     nh = 12 if ck.thorough else 4
-    all_lines, all_impl, all_calls = [], [], []
+    all_lines, all_impl, all_calls, all_call_args = [], [], [], []
     for h in range(nh):
         pool = build_pool(rng)
         calls = [rand_call(rng, pool) for _ in range(200 if ck.thorough else 60)]
@@ -110,12 +110,21 @@ def run(ck: Check) -> None:
             all_lines.append(line)
             all_impl.append(out)
             all_calls.append((h, op))
+            all_call_args.append(args)
             if not out.startswith(("E ArgError", "F")):
                 ck.nontrivial_add(hashlib.sha1(line.encode()).digest())
     model = ck.driver.run(all_lines, [h for h, _ in all_calls])
     from ..framework import answers_agree
+    all_args = []
     for line, i, m, (h, op) in zip(all_lines, all_impl, model, all_calls):
         ck.count("op:" + op)
+        if not answers_agree(i, m) and i.startswith("E ") and m.startswith("E ") and op in ("vroot", "vdeleg"):
+            acc = schema.acceptable_outcomes(op, all_call_args[len(all_args)])
+            if acc is not None and i in acc and m in acc:
+                ck.benign += 1
+                all_args.append(None)
+                continue
+        all_args.append(None)
         if not answers_agree(i, m):
             ck.mismatch_total += 1
             kk = f"history:{op}:impl={i[:30]}:model={m[:30]}"
@@ -140,7 +149,7 @@ def run(ck: Check) -> None:
         ck.evaluations += 1
         frozen = copy.deepcopy(w)
         orig = copy.deepcopy(obj)
-        for p in [p for p in gen.json_paths(obj) if p]:
+        for p in sorted([p for p in gen.json_paths(obj) if p], key=len, reverse=True):      # deepest first: parents stay reachable
             try:
                 cur = obj
                 for q in p[:-1]:
@@ -154,7 +163,7 @@ def run(ck: Check) -> None:
                 break
         obj2 = copy.deepcopy(orig)
         w2 = impl.signing.wrap_as_signable(obj2)
-        for p in [p for p in gen.json_paths(w2["signed"]) if p]:
+        for p in sorted([p for p in gen.json_paths(w2["signed"]) if p], key=len, reverse=True):
             try:
                 cur = w2["signed"]
                 for q in p[:-1]:
